@@ -159,13 +159,17 @@ type Store struct {
 	Lazy bool
 	// Journal records the command names applied (evidence / debugging only).
 	Journal []string
+	// ScanPage > 0: SCAN walks that many keys per call (in insertion order) and filters
+	// them afterwards, as redis does with COUNT: a call can return no key at all together
+	// with a non-zero cursor.  0: everything in one call.
+	ScanPage int
 }
 
 func NewStore() *Store { return &Store{CrashAt: -1} }
 
 // Survivor returns the state a restarted broker finds: the same data, a live server.
 func (s *Store) Survivor() *Store {
-	return &Store{entries: s.entries, CrashAt: -1}
+	return &Store{entries: s.entries, CrashAt: -1, ScanPage: s.ScanPage}
 }
 
 func (s *Store) find(key string) (int, *entry) {
@@ -380,12 +384,27 @@ func (s *Store) Apply(name string, args []Val) Reply {
 			}
 		}
 		keys := []Reply{}
-		for _, e := range s.entries {
+		cur, _ := args[0].ParseInt()
+		from, to := 0, len(s.entries)
+		next := int64(0)
+		if s.ScanPage > 0 {
+			from = int(cur)
+			if from > len(s.entries) {
+				from = len(s.entries)
+			}
+			to = from + s.ScanPage
+			if to >= len(s.entries) {
+				to = len(s.entries)
+			} else {
+				next = int64(to)
+			}
+		}
+		for _, e := range s.entries[from:to] {
 			if matchPattern(pat, e.key) {
 				keys = append(keys, rBulk(Str(e.key)))
 			}
 		}
-		return rArr([]Reply{rBulk(Str("0")), rArr(keys)})
+		return rArr([]Reply{rBulk(Val{B: fmtInt(next)}), rArr(keys)})
 	case "llen":
 		if len(args) != 1 {
 			return rErr("ERR wrong number of arguments for 'llen' command")
